@@ -100,6 +100,15 @@ func registerHooks(p *Program) {
 	h[rtPkg+".IteInt64"] = ite
 	h[rtPkg+".IteBool"] = ite
 	h[rtPkg+".IteInt"] = ite
+	h[rtPkg+".OpenDB"] = func(fr *frame, args []value) value {
+		mb := fr.i.prog.ImportedPackage(rtPkg + "/mbolt")
+		if mb == nil {
+			panic(abort{AbortUnsupported, "mbolt model not loaded"})
+		}
+		fr.i.noteStub("go.etcd.io/bbolt: replaced by the mbolt model (validated against real bbolt by harness/verifrt/mbolt/diff_test.go)")
+		return call(fr.i, fr, token.NoPos, mb.Func("NewDB"), nil)
+	}
+	h[rtPkg+".CleanupDBs"] = func(fr *frame, args []value) value { return nil }
 	h[rtPkg+".Catch"] = hookCatch
 	h[rtPkg+".Tier"] = func(fr *frame, args []value) value { return fr.i.es.cfg.Tier }
 	h[rtPkg+".Logf"] = func(fr *frame, args []value) value { return nil }
